@@ -44,10 +44,10 @@ CORR_HEADER = ("From Coq Require Import ZArith QArith List String.\n"
                "From ACN Require Import Base.Num Model.Pilots.\nImport ListNotations.\n"
                "Open Scope string_scope.\nOpen Scope Z_scope.\nOpen Scope Q_scope.\n")
 CHECK_FN = "check_c04"
-RULE = ("stream run: 3 fixed corpus scenarios (incl. the witness of the defect fixed in afd41a2), then 0-5 EVSEs "
+RULE = ("stream run: 6 fixed corpus scenarios (incl. the witness of the defect fixed in afd41a2 and rejected schedules with store_schedule_history=True), then 0-5 EVSEs "
         "(wide range or default) registered in shuffled order under one of five naming styles (zero-padded, S-9/S-10, "
         "mixed case, numeric-looking, falsy '' and '0'), heterogeneous voltages, period in {1,5,7,0.5,2.5}, random "
-        "non-overlapping sessions + Recompute events over a horizon of 1-30 periods, max_recompute in {None,0,1,2,3,5}; "
+        "non-overlapping sessions + Recompute events over a horizon of 1-30 periods, max_recompute in {None,0,1,2,3,5}, store_schedule_history on in half of the runs (schedule_history is an observable: periods compared with the model, contents by the monitor); "
         "at every scheduler call a scripted submission: random subset of stations in shuffled dict order, length 1-12 / "
         "up to the horizon / beyond it / long in the queue-draining period / all-zero / constant, empty dict, rows as "
         "int / float / numpy.float64 / float32 lists, tuples, numpy arrays (float64, float16, int64, int32) or mixed, "
@@ -437,7 +437,8 @@ def run_sim(inp, provider, alg=None, on_call=None):
     if alg is None:
         alg = make_alg(inp["max_recompute"])
     crash = {int(k): v for k, v in (resume.get("crash") or {}).items()}
-    sim = Simulator(net, alg, queue, datetime(2020, 1, 1), period=inp.get("period", 5), verbose=False)
+    sim = Simulator(net, alg, queue, datetime(2020, 1, 1), period=inp.get("period", 5), verbose=False,
+                    store_schedule_history=bool(inp.get("store_history", False)))
     sim_ref[0] = sim
     if use_json:
         hook_plain(net, sim, rec)
@@ -514,7 +515,17 @@ def run_sim(inp, provider, alg=None, on_call=None):
                 [float(e.current_pilot) for e in net._EVSEs.values()]
         except Exception:  # noqa
             json_ok = False
+    history = None
+    if sim.schedule_history is not None:
+        try:
+            history = [[int(k), [[name, [float(x) for x in row]] for name, row in sim.schedule_history[k].items()]]
+                       for k in sorted(sim.schedule_history)]
+        except Exception as e:  # noqa
+            problems.append("schedule_history cannot be read: %s" % type(e).__name__)
+    elif inp.get("store_history"):
+        problems.append("schedule_history is None although store_schedule_history=True")
     return dict(exc=exc, last0=last0, ids=[num_of(s) for s in net.station_ids], df_ok=df_ok, json_ok=json_ok,
+                history=history,
                 rows=rows, wid=int(sim.pilot_signals.shape[1]), iter=int(sim._iteration),
                 periods=rec, calls=calls, charges=charges, restarts=restarts, problems=problems,
                 energies=[float(ev.energy_delivered) for ev in evs])
@@ -544,11 +555,11 @@ def rand_run_input(rng):
                 period=rng.choice([5, 5, 1, 7, 0.5, 2.5]),
                 voltages=[rng.choice([120, 208, 240, 277.5]) for _ in pool],
                 default_evse=[rng.random() < 0.2 for _ in pool],
-                mutate_prev=rng.choice([0, 0, 1, 1, 2]))
+                mutate_prev=rng.choice([0, 0, 1, 1, 2]), store_history=rng.random() < 0.5)
 
 
 BASE_KEYS = ("stations", "names", "sessions", "recomputes", "max_recompute", "constraints", "period", "voltages",
-             "default_evse", "mutate_prev", "resume")
+             "default_evse", "mutate_prev", "resume", "store_history")
 
 
 def base_of(inp):
@@ -573,12 +584,14 @@ def run_case(inp, impl, extra_input=None):
     set_names(inp.get("names"))
     tr = trace_of(impl)
     coq = ("{| c_ids := %s; c_last0 := %s;\n   c_trace := %s;\n   i_exc := %s; i_rows := %s; i_wid := %s; i_iter := %s;\n"
-           "   i_sent := %s |}") % (
+           "   i_sent := %s; i_hist := %s |}") % (
         coq_list([zlit(n) for n in impl["ids"]]), coq_opt(impl["last0"], zlit),
         coq_list(["(%s, %s)" % (coq_opt(l, zlit), coq_opt(s, sub_coq)) for l, s in tr]),
         coq_opt(impl["exc"], coq_str), coq_list([coq_list([q(x) for x in r]) for r in impl["rows"]]),
         zlit(impl["wid"]), zlit(impl["iter"]),
-        coq_list([coq_list([q(x) for x in p["pilots"]]) for p in impl["periods"]]))
+        coq_list([coq_list([q(x) for x in p["pilots"]]) for p in impl["periods"]]),
+        coq_opt(None if impl.get("history") is None else [h[0] for h in impl["history"]],
+                lambda l: coq_list([zlit(k) for k in l])))
     subs = [c["sub"] for c in impl["calls"]]
     kinds = set()
     for c in impl["calls"]:
@@ -656,6 +669,14 @@ CORPUS = [
          recomputes=[5], max_recompute=None, constraints=[],
          script=[[dict(station="S-9", kind="int", vals=[16.0] * 6), dict(station="S-10", kind="float", vals=[8.0] * 6)],
                  [], [], [dict(station="S-10", kind="int", vals=[0.0, 0.0])], []]),
+    # store_schedule_history=True: a rejected schedule (unknown station / ragged rows) must not stay in the history
+    dict(stations=[1, 2], names=_names([1, 2]), sessions=[dict(station=1, arrival=0, departure=9, energy=5)],
+         recomputes=[1, 2], max_recompute=None, constraints=[], store_history=True,
+         script=[[_row(1, [10, 10, 10, 10])], [_row(2, [7.5, 7.5])],
+                 [_row(1, [20, 20, 20]), dict(station="Z", kind="float", vals=[5.0, 5.0, 5.0])]]),
+    dict(stations=[1, 2], names=_names([1, 2]), sessions=[dict(station=1, arrival=0, departure=9, energy=5)],
+         recomputes=[1, 2], max_recompute=None, constraints=[], store_history=True,
+         script=[[_row(1, [10, 10, 10, 10])], [], [_row(1, [20, 20, 20]), _row(2, [5, 5])]]),
 ]
 
 
@@ -1192,6 +1213,21 @@ def monitor_run(case):
         if pilot != want:
             return "the EV at %r was charged with pilot %r in period %d, the submitted schedules say %r" % (
                 station, pilot, it, want)
+    # schedule_history (store_schedule_history=True): exactly the schedules that were applied, under their period
+    hist = impl.get("history")
+    if hist is not None:
+        want_keys = [t0 for t0, _ in accepted]
+        got_keys = [h[0] for h in hist]
+        if got_keys != want_keys:
+            extra = [k for k in got_keys if k not in want_keys]
+            if extra and impl["exc"] is not None and extra == [impl["iter"]]:
+                return "the rejected schedule of period %d (%s) was left in schedule_history although nothing of it was applied" % (
+                    impl["iter"], impl["exc"])
+            return "schedule_history has entries for periods %r, schedules were applied in periods %r" % (got_keys, want_keys)
+        if case["input"].get("mutate_prev", 0) == 0 and impl.get("restarts", 0) == 0:
+            for (k, content), (t0, sub) in zip(hist, accepted):
+                if content != [[r["station"], [float(v) for v in r["vals"]]] for r in sub]:
+                    return "schedule_history[%d] is not the schedule submitted in period %d" % (k, t0)
     if not impl.get("df_ok", True):
         return "pilot_signals_as_df() is not the transpose of pilot_signals with the stations as columns"
     if impl.get("json_ok") is False:
